@@ -184,6 +184,30 @@ where
         }
     }
 
+    /// Raw editor bytes, cursor (in chars) and command buffer capacity
+    #[cfg(feature = "verif-hooks")]
+    pub fn verif_editor(&self) -> Option<(&[u8], usize, usize)> {
+        self.editor.as_ref().map(|e| e.verif_raw())
+    }
+
+    /// `valid` field of the editor
+    #[cfg(feature = "verif-hooks")]
+    pub fn verif_editor_valid(&self) -> Option<usize> {
+        self.editor.as_ref().map(|e| e.verif_valid())
+    }
+
+    /// Raw history buffer, used bytes and navigation cursor
+    #[cfg(all(feature = "verif-hooks", feature = "history"))]
+    pub fn verif_history(&self) -> (&[u8], usize, Option<usize>) {
+        self.history.verif_raw()
+    }
+
+    /// Current prompt
+    #[cfg(feature = "verif-hooks")]
+    pub fn verif_prompt(&self) -> &'static str {
+        self.prompt
+    }
+
     /// Set new prompt to use in CLI
     ///
     /// Changes will apply immediately and current line
